@@ -15,6 +15,7 @@ Record case := mkCase {
   c_enum : list nat;
   c_bin : bool;
   c_inc : option Q;                 (* voter_budget_increment (None = plain rule) *)
+  c_init : list nat;                (* initial_budget_allocation (feasible) *)
   c_mult : list nat;                (* details.voter_multiplicity *)
   c_iters : list iter;              (* details.iterations of the returned allocation *)
   c_final_budget : Q;               (* details.get_final_budget() *)
@@ -29,7 +30,7 @@ Definition ITER_FUEL : nat := 400.
 
 Definition voters_of (c : case) : list vcls := map (fun um => mkV (fst um) (snd um)) (c_voters c).
 Definition min_of (c : case) : mes_in :=
-  mkIn (c_costs c) (c_budget c) (voters_of c) (key_of_list (c_tb c)) (c_enum c) (c_bin c) [].
+  mkIn (c_costs c) (c_budget c) (voters_of c) (key_of_list (c_tb c)) (c_enum c) (c_bin c) (c_init c).
 
 Fixpoint qlist_eqb (a b : list Q) : bool :=
   match a, b with
@@ -47,7 +48,11 @@ Definition wsum (c : case) (f : nat -> Q) (l : list nat) : Q := Qsum (map (fun i
 Definition bq (b : list Q) (i : nat) : Q := nth i b 0.
 Definition costq (c : case) (p : nat) : Q := nth p (c_costs c) 0.
 
-(* 1: equal start summing (with multiplicities) to the budget limit / the reported inflated budget *)
+(* money to distribute: the budget limit minus the cost of the initial allocation *)
+Definition to_share (c : case) : Q := c_budget c - Qsum (map (fun p => nth p (c_costs c) 0) (c_init c)).
+
+(* 1: equal start summing (with multiplicities) to the budget limit (less the initial allocation) /
+   the reported inflated budget *)
 Definition chk_start (c : case) : bool :=
   match c_iters c with
   | [] => false
@@ -56,7 +61,7 @@ Definition chk_start (c : case) : bool :=
       && forallb (fun x => Qeqb x (bq b 0)) b
       && let tot := wsum c (bq b) (idx c) in
          Qeqb tot (c_final_budget c)
-         && match c_inc c with None => Qeqb tot (c_budget c) | Some _ => Qleb (c_budget c) tot end
+         && match c_inc c with None => Qeqb tot (to_share c) | Some _ => Qleb (to_share c) tot end
   end.
 
 (* per purchase round *)
@@ -115,8 +120,9 @@ Definition chk_final (c : case) : bool :=
 
 (* 10: the outcome is the supported zero-cost projects plus the recorded purchases *)
 Definition chk_outcome (c : case) : bool :=
-  let zeros := filter (fun p => supported c p && Qleb (costq c p) 0) (seq 0 (length (c_costs c))) in
-  set_eqb (c_out c) (zeros ++ selected c) && nodupb (c_out c).
+  let zeros := filter (fun p => supported c p && Qleb (costq c p) 0 && negb (memb p (c_init c)))
+                      (seq 0 (length (c_costs c))) in
+  set_eqb (c_out c) (c_init c ++ zeros ++ selected c) && nodupb (c_out c).
 
 (* ---- model side ---- *)
 Definition model_run (c : case) : option mes_out :=
@@ -157,7 +163,7 @@ Definition loss_ok (c : case) (o : mes_out) (L : list (nat * Q * Q)) : bool :=
    4 payments are not min(own money, rho*u) for one rho   5 payments do not add up to the cost
    6 malformed record / rounds do not chain   7 a remaining supported project is affordable at the end
    8 analytics changed the outcome   9 validate_price_system rejects the payments
-   10 outcome is not zero-cost supported projects + recorded purchases
+   10 outcome is not initial allocation + zero-cost supported projects + recorded purchases
    11 recorded multiplicities differ from the profile's   12 calculate_project_loss raised
    -- model (correspondence): 20 recorded trace differs from the model's trace
    21 model out of fuel   22 calculate_project_loss totals differ   23 outcome set differs from the model's *)
